@@ -437,6 +437,23 @@ def run_routes(case):
   return routes_agree(case[0], f, spec, canon)
 
 
+def gen_types(run):
+  from ..routes import struct_params
+  try:
+    T = route_table()
+  except Exception:
+    T = {}
+  for name, ent in T.items():
+    if struct_params(ent[1]):
+      yield (name,)
+
+
+def run_types(case):
+  from ..routes import struct_params, types_agree
+  ent = route_table()[case[0]]
+  return types_agree(case[0], ent[0], ent[1], ent[2], struct_params(ent[1]))
+
+
 KINDS = OrderedDict([
   ("lowpass-highpass", Kind(gen_lphp, run_lphp, chunk=1, timeout=120, rule="strategy/alias x slice of 64 cut-offs of the grid")),
   ("resonator", Kind(gen_resonator, run_resonator, chunk=1, timeout=120, rule="strategy/alias x bandwidth; frequency grid inside the case")),
@@ -445,4 +462,6 @@ KINDS = OrderedDict([
   ("stream-params", Kind(gen_streams, run_streams, chunk=2, rule="stream-valued parameters vs constant designs, sample by sample")),
   ("call-routes", Kind(gen_routes, run_routes, chunk=1,
                        rule="each function with every documented parameter set: all positional / all keyword / every split must agree")),
+  ("param-types", Kind(gen_types, run_types, chunk=1,
+                       rule="structural integer parameters given as integral float / Fraction / bool: same result wherever the type is accepted")),
 ])
